@@ -95,7 +95,13 @@ def sort_f(name):
     raise ValueError(name)
 
 
-def _relational(before, after, obs_map, samp_map, what):
+def _relational(before, after, obs_map, samp_map, what, table=None):
+    if table is not None:
+        observe.check_lookups(table, after, what + " result")
+    _relational_(before, after, obs_map, samp_map, what)
+
+
+def _relational_(before, after, obs_map, samp_map, what):
     """`after` must hold, for every pair, the value `before` held for the
     pre-images; obs_map/samp_map: new id -> old id (bijections)."""
     b = Ref.from_snapshot(before)
@@ -165,7 +171,7 @@ def check(case, rec):
             raise Violation("other-axis-changed", "%r -> %r" %
                             (before[other], after[other]))
         _relational(before, after, _ident(ref.obs), _ident(ref.samp),
-                    "sort_order")
+                    "sort_order", r)
         # inverse permutation restores everything
         back = observe.snapshot(r.sort_order(list(ids), axis=axis))
         msg = agree(back, ref, "perm then inverse perm")
@@ -193,7 +199,8 @@ def check(case, rec):
                             (op["f"], got, order))
         if f is None:
             _natural(got)
-        _relational(before, after, _ident(ref.obs), _ident(ref.samp), "sort")
+        _relational(before, after, _ident(ref.obs), _ident(ref.samp), "sort",
+                    r)
         _unchanged(t, before, "sort", r)
         rec.nt(order != ids and _distinct_vectors(ref, axis))
         return
@@ -315,7 +322,8 @@ def _align(case, op, t, before, ref, rec):
     if after["obs"] != want_o or after["samp"] != want_s:
         raise Violation("order", "align_to(%r): ids %r / %r, expected %r / %r"
                         % (axis, after["obs"], after["samp"], want_o, want_s))
-    _relational(before, after, _ident(ref.obs), _ident(ref.samp), "align_to")
+    _relational(before, after, _ident(ref.obs), _ident(ref.samp), "align_to",
+                r)
     _unchanged(t, before, "align_to", r)
     if observe.snapshot(other) != other_before:
         raise Violation("argument-changed", "align_to changed `other`")
